@@ -2,7 +2,8 @@
 from corr import corr_means
 import implsearch as IS
 
-MODULES = ["PyFV.Props.C11"]
+MODULES = ["PyFV.Props.C11", "PyFV.Props.GenEqAvg"]
+TRANSLATORS = {"T-avg": "python3 harness/translate/tavg.py lean/PyFV/Gen/AvgGen.lean"}
 EXTRA_TRUST = ["geometricMean is compared against Python's math.exp/log in the implementation search only (the ℚ driver does not evaluate exp/log); its Lean theorems are over ℝ with Real.exp/Real.log"]
 
 
